@@ -98,7 +98,7 @@ func judgeSrc(c *fw.Ctx, src string, prog []*model.N, jo judgeOpts) (o h.Outcome
 		c.Skip("model step budget exceeded")
 		return o, res, true
 	}
-	o = h.RunFile(src, h.Opts{Stdin: jo.Stdin, Prefix: jo.Prefix})
+	o = h.RunFile(src, h.Opts{Stdin: jo.Stdin, Prefix: jo.Prefix, Fuel: fuelFor(res)})
 	c.Eval(src, true)
 	c.Outcome(o.Stdout + "\x00" + o.FirstDiag())
 	base := fw.Replay{Mode: "file", Program: src, Stdin: jo.Stdin, Choices: jo.Prefix, CLI: len(jo.Prefix) == 0,
@@ -153,4 +153,11 @@ func parenAll(prog []*model.N) []*model.N {
 		out[i] = model.FixDangling(model.Parenthesize(s, true))
 	}
 	return out
+}
+
+// fuelFor sizes the implementation's fuel from the model's step count: far
+// more than a correct interpreter needs, small enough that a diverging
+// execution is recognised quickly.
+func fuelFor(res *model.Result) int64 {
+	return int64(res.Steps)*400 + 30000
 }
